@@ -227,6 +227,13 @@ def rand_payload(rng):
         return f"{rng.uniform(-200, 200):.{rng.randint(0, 4)}f}"
     if k < 0.6:
         return "".join(rng.choice("0123456789abcdefABCDEFg") for _ in range(rng.choice([5, 6, 7, 8, 9, 20, 12])))
+    if k < 0.66:
+        # hex-looking strings of the right length with blanks / separators inside (never trailing)
+        n = rng.choice([6, 8])
+        body = [rng.choice("0123456789abcdefABCDEF") for _ in range(n)]
+        for _ in range(rng.randint(1, 3)):
+            body[rng.randrange(n - 1)] = rng.choice([" ", "\t", "_", ":", "-", "+", "x", "\x0b"])
+        return "".join(body)
     if k < 0.7:
         return ",".join(rand_payload_simple(rng) for _ in range(rng.randint(1, 4)))
     return "".join(rng.choice(UNICODE_POOL) for _ in range(rng.randint(0, 6))).rstrip().replace(";", "")
